@@ -39,7 +39,7 @@ def check(ctx):
     ctx.sample({"file": objs[6]["file"], "objects": objs[6]["objects"], "writable_sections": objs[6]["writable_sections"]})
     if ctx.tier == "thorough":
         run_threads(ctx)
-    if broken and not ctx.violations and not ctx.known_hits:
+    if broken and not ctx.violations:
         for name, detail in broken[:3]:
             ctx.violation("theorem:" + name, "proof obligation no longer checks: %s — %s" % (name, detail[:300]), {"broken": name, "detail": detail}, found_input=False)
 
